@@ -28,13 +28,40 @@ fn blob(i: u32) -> [u8; BLOB] {
     b
 }
 
+const BIG: usize = 6 * 1024 * 1024 + 123;
+fn big_content() -> Vec<u8> {
+    jbkmc::gen::payload(BIG, jbkmc::gen::Entropy::Low, 77)
+}
+
 fn main() {
     jbkmc::install_quiet_panic_hook();
     let args = Args::parse();
+    // the readers run in a child process: a memory error under concurrent reads kills the process,
+    // and that is a finding to report, not a reason to end without a verdict
+    if !args.flag("--child") {
+        let exe = std::env::current_exe().expect("current exe");
+        let mut cmd = std::process::Command::new(exe);
+        cmd.args(std::env::args().skip(1)).arg("--child");
+        let status = cmd.status().expect("spawn the reader process");
+        if let Some(code) = status.code() {
+            if code == 0 || code == 1 || code == 2 {
+                std::process::exit(code);
+            }
+        }
+        let mut rep = Report::new("stressmc", "C07", "the reader process died; see the violation");
+        rep.exhaustive = false;
+        rep.case(Some("reader process"), "dies");
+        rep.violation(
+            "C07 the process dies while 64 threads read one pack (free-running stress)",
+            &format!("the reader process ended with {status:?} instead of a verdict (abort or signal: a memory error or a panic while panicking)"),
+            json!({"engine": "stressmc", "note": "not replayable: free-running schedule"}),
+        );
+        rep.finish(&args);
+    }
     let mut rep = Report::new(
         "stressmc",
         "C07",
-        "SAMPLING (not exhaustive): 64 free-running reader threads x 400 seeded reads each over a pack of 60 compressed (zstd) + 40 raw clusters of 4095 30-byte blobs, plus one zero-length content alone in the last cluster, 2 rounds on freshly opened packs; reads = whole stream / get_slice / stream of a cut / slice and stream of a cut of a cut; every read is compared with the stored bytes; a 60 s watchdog reports a reader that never returns; a case = one read, non-trivial = a read (all are)",
+        "SAMPLING (not exhaustive): 64 free-running reader threads x 400 seeded reads each over a pack of 60 compressed (zstd) + 40 raw clusters of 4095 30-byte blobs, plus one zero-length content alone in its cluster and one compressible content of 6 MiB, 2 rounds on freshly opened packs; reads = whole stream (also after a first short read) / get_slice / stream of a cut / slice and stream of a cut of a cut; every read is compared with the stored bytes; a 60 s watchdog reports a reader that never returns; a case = one read, non-trivial = a read (all are)",
     );
     rep.exhaustive = false;
     rep.caps.push("free-running threads: schedules are sampled, not enumerated (the deciding engine for the publication protocol is loommc)".into());
@@ -57,8 +84,10 @@ fn main() {
                 i += 1;
             }
         }
-        // one zero-length content at the very end (alone in the last cluster)
+        // one zero-length content at the very end (alone in the last cluster), then one compressible
+        // content of 6 MiB (a cluster whose decoded size is above the 4 MiB a cluster normally holds)
         c.add_content(Box::new(std::io::Cursor::new(vec![])), jbk::creator::CompHint::Yes).map_err(|e| e.to_string())?;
+        c.add_content(Box::new(std::io::Cursor::new(big_content())), jbk::creator::CompHint::Yes).map_err(|e| e.to_string())?;
         c.finalize().map_err(|e| e.to_string())?;
         Ok(i)
     });
@@ -70,6 +99,7 @@ fn main() {
         }
     };
     let reads = Arc::new(AtomicU64::new(0));
+    let big = Arc::new(big_content());
     let case0 = json!({"engine": "stressmc", "note": "not replayable: free-running schedule"});
     jbkmc::watchdog::start("stressmc", "C07", "C07 a concurrent reader never returns (free-running stress)", std::time::Duration::from_secs(60), args.out.clone(), |c| c);
     let mut failures: Vec<String> = vec![];
@@ -86,6 +116,7 @@ fn main() {
         for t in 0..64u64 {
             let pack = pack.clone();
             let reads = reads.clone();
+            let big = big.clone();
             hs.push(std::thread::spawn(move || -> Result<(), String> {
                 let mut x = (t + 1).wrapping_mul(0x2545F4914F6CDD1D) ^ (round as u64) << 40;
                 for k in 0..400 {
@@ -94,6 +125,21 @@ fn main() {
                     x ^= x << 17;
                     // half of the threads hammer the same few clusters, the others roam
                     let idx = if t % 2 == 0 { ((x % 3) * 4095 * 7 + (x >> 20) % 4095) as u32 % total } else { (x % total as u64) as u32 };
+                    if k % 100 == 37 {
+                        // the 6 MiB content: its head, its tail and a window across the 4 MiB mark
+                        let r = pack.get_content(jbk::ContentIdx::from(total + 1)).map_err(|e| format!("big content: {e}"))?.ok_or_else(|| "big content: none".to_string())?;
+                        if r.size().into_u64() != BIG as u64 {
+                            return Err(format!("big content: size {}", r.size().into_u64()));
+                        }
+                        for (o, n) in [(0usize, 64usize), (4 * 1024 * 1024 - 32, 64), (BIG - 64, 64)] {
+                            let sl = r.get_slice(jbk::Offset::new(o as u64), n).map_err(|e| format!("big content: {e}"))?;
+                            if sl[..] != big[o..o + n] {
+                                return Err(format!("big content: get_slice({o},{n}) yields other bytes (thread {t})"));
+                            }
+                        }
+                        reads.fetch_add(1, Ordering::Relaxed);
+                        continue;
+                    }
                     if k % 50 == 49 {
                         // the zero-length content
                         let r = pack.get_content(jbk::ContentIdx::from(total)).map_err(|e| format!("empty content: {e}"))?.ok_or_else(|| "empty content: none".to_string())?;
@@ -126,8 +172,15 @@ fn main() {
                             }
                         }
                         0 => {
+                            // the whole stream, every other time after a first short read
                             let mut v = vec![];
-                            r.stream().read_to_end(&mut v).map_err(|e| format!("content {idx}: {e}"))?;
+                            let mut st = r.stream();
+                            if k % 8 == 0 {
+                                let mut first = [0u8; 3];
+                                let n = st.read(&mut first).map_err(|e| format!("content {idx}: {e}"))?;
+                                v.extend_from_slice(&first[..n]);
+                            }
+                            st.read_to_end(&mut v).map_err(|e| format!("content {idx}: {e}"))?;
                             if v != want {
                                 return Err(format!("content {idx}: stream yields other bytes (thread {t})"));
                             }
